@@ -64,11 +64,15 @@ func (ck *checker) familyCLI(maxN int) {
 			// a module that provides a well-known type and is imported through it alone (family W through the
 			// CLI): n <= 2 in the quick tier, n <= 3 in the thorough tier
 			if !(n == 3 && r.Quick()) {
+				wktVectors := vectors
+				if n == 3 {
+					wktVectors = [][]Kind{{KLocal, KLocal, KLocal}, {KNamed, KNamed, KNamed}, {KLocal, KNamed, KBoth}}
+				}
 				for w := 0; w < n; w++ {
 					if inDegree(g, w) == 0 {
 						continue
 					}
-					for _, ks := range vectors {
+					for _, ks := range wktVectors {
 						for _, v2 := range []bool{false, true} {
 							s := newSpec(g, ks, v2)
 							s.WKTProv = w
